@@ -17,10 +17,10 @@ def hasBigNumber (ds : List (String × String × Bool)) : Bool := ds.all (·.2.2
 def judgeDoc (kind flags inS outS : String) : String × String :=
   match J.parse inS, J.parse outS with
   | some i, some o =>
-    let norm := if kind == "vp" then normVP else if kind == "did" then id else normVC
+    let norm := if kind == "vp" || kind == "jwtp" then normVP else if kind == "did" then id else normVC
     -- the proof of a credential that went through the JWT form is the JWT's signature, `jwt` is not a member of the source
     let strip (j : J) : J := match j with
-      | .obj kvs => .obj (kvs.filter fun (k, _) => !(kind == "jwt" && (k == "jwt")))
+      | .obj kvs => .obj (kvs.filter fun (k, _) => !((kind == "jwt" || kind == "jwtp") && (k == "jwt")))
       | x => x
     let a := canon 32 (norm (strip i))
     let b := canon 32 (norm (strip o))
